@@ -12,7 +12,7 @@ pub fn run_c20(args: &Args) -> i32 {
   net::set_policy_drop_all();
   let mut rep = Report::new(
     args,
-    "random histories {reader match/loss (reliable and best-effort), write, ACKNACK with base last / last+1 / last-1 / absolute} before and after a wait_for_acknowledgments call on a real DataWriter+Writer; sync form on its own thread with measured elapsed time, async form polled under executor discipline (re-polled only when its waker fired); distinct = hash of the whole script; non-trivial = >=1 reliable reader matched at the call",
+    "random histories {reader match/loss (reliable and best-effort), write, ACKNACK with base last / last+1 / last-1 / absolute} before and after a wait_for_acknowledgments call on a real DataWriter+Writer; sync form on its own thread with measured elapsed time, async form polled under executor discipline (re-polled only when its waker fired); second leg: two threads calling the sync form on one DataWriter at the same time with a reader that has acknowledged only a prefix (neither call may report success before everything is acknowledged); distinct = hash of the whole script; non-trivial = >=1 reliable reader matched at the call",
   );
   rep.assume("success allowed only when every reliable reader matched at the call acked base > last-written-at-call or was lost; expected-timeout cases use 100-160 ms, expected-success cases 8 s so a timeout cannot masquerade as success");
   rep.assume("a false yes is looked for during 3 ms after each non-completing event and at the end; the upper bound on completion time is a watchdog only");
@@ -47,6 +47,28 @@ pub fn run_c20(args: &Args) -> i32 {
       acc.sample(json!({"case": tag, "script": wfa::case_json(&case)}), 2);
     }
   });
+  // second leg: two threads waiting on one DataWriter at once (only "no false yes" is judged there)
+  let n2 = args.scale(400, 16_000);
+  let acc2 = par_cases(args.threads(), n2, |i, acc| {
+    if replay_case.is_some() {
+      return;
+    }
+    let mut rng = Rng::derive(seed, 0x2022, i);
+    let tag = json!({"seed": seed, "stream": 0x2022, "index": i, "leg": "two-concurrent-waits"});
+    let out = wfa::run_two_waiters(&mut rng, acc, &tag);
+    acc.evaluations += 1;
+    acc.count("two_waiters:cases", 1);
+    if out.both_said_no {
+      acc.count("two_waiters:both_calls_reported_timeout", 1);
+    }
+    if out.acked_in_time {
+      acc.count("two_waiters:cases_with_everything_acknowledged_before_the_timeouts", 1);
+    }
+    acc.distinct.insert(crate::prng::fnv64(tag.to_string().as_bytes()));
+  });
+  let mut acc = acc;
+  acc.merge(acc2);
+  rep.require("two_waiters:cases", 100);
   rep.require("sync_completed_true", 100);
   rep.require("sync_timed_out", 50);
   rep.require("boundary_acks_last_or_last_plus_1", 100);
